@@ -62,6 +62,15 @@ func (o *orC10) onSQL(ev *SQLEvent) {
 			m.violate("C10", "self_source", "server-pointed-at-itself", fmt.Sprintf("%s sent CHANGE ... TO host=%s to %s itself", ev.Src, mm[1], ev.Dst))
 		}
 	}
+	// a host that left the registry is left alone by the manager loop (two passes of grace for
+	// the registry refresh); the health check of its own daemon keeps reading it, nothing more
+	if o.active() && ev.Mutating && ev.It != nil && ev.It.state == "Manager" && ev.Kind != "set_lock_timeout" {
+		if at, gone := m.deregAt[ev.Dst]; gone && !m.isCascade(ev.Dst) && ev.It.startT > at+2*ms(m.s.spec.Cfg.TickMs)+time.Second {
+			m.violate("C10", "deregistered", "statement-to-deregistered-host", fmt.Sprintf("%s sent %q to %s, which left ha_nodes at %v (this pass began at %v)", ev.Src, ev.Query, ev.Dst, at, ev.It.startT))
+		} else if gone {
+			m.probe("c10_statement_to_leaving_host_in_grace")
+		}
+	}
 	// stale master being turned into a replica by the repair pass
 	if !o.active() && !m.primary["C11"] {
 		return
